@@ -358,7 +358,9 @@ pub fn honest_swarm(seed: u64) -> Plan {
     for h in hs {
         let mut peer = base_peer(k, n);
         peer.has = h;
-        peer.max_accepts = 50;
+        // an essential peer is reachable whenever the client dials it (the client drops and
+        // re-dials a drained partial seed many times while that peer is still gaining pieces)
+        peer.max_accepts = 1_000_000;
         peer.net = gen_net(&mut r, calm);
         peer.unchoke = Unchoke::OnInterested(r.range(1, 20_000));
         peer.answer.delay_min = 0;
